@@ -63,10 +63,6 @@ void harness (void)
   k = nondet_int (); auth->state = k == 0 ? &server_state_waiting_for_auth : k == 1 ? &server_state_waiting_for_data : &server_state_waiting_for_begin;
   __CPROVER_assume (_dbus_string_init (&auth->incoming));
   for (i = 0; i < VERIF_N; i++) { in[i] = nondet_uchar (); if (i < n) __CPROVER_assume (_dbus_string_append_byte (&auth->incoming, in[i])); }
-#ifdef VERIF_NO_STRAY_CRLF
-  /* EXTRA assumption of the weakened twin: CR and LF occur only as the terminating pair */
-  for (i = 0; i < VERIF_N; i++) if (i < n) __CPROVER_assume ((in[i] != '\r' && in[i] != '\n') || (in[i] == '\r' && i + 1 < n && in[i + 1] == '\n') || (in[i] == '\n' && i > 0 && in[i - 1] == '\r'));
-#endif
   /* reference framing */
   int eol = -1;
   for (i = 0; i + 1 < VERIF_N; i++) if (eol < 0 && i + 1 < n && in[i] == '\r' && in[i + 1] == '\n') eol = i;
